@@ -13,7 +13,7 @@ NAN = float('nan')
 LATTICE = [-math.inf, -1.0, -0.0, 0.0, 0.5, 1.0, 2.0, math.inf]
 RULE = ('LEN in {1,2,3,4}: EVERY non-decreasing edge vector over the lattice {-inf,-1,-0.0,+0.0,0.5,1,2,+inf} (both orders of '
         'the signed zeros, repeated edges, infinite ends) x samples {every edge, its two floating-point neighbours, midpoints, '
-        '+-inf, NaN, -0.0, +0.0, +-1e300}; LEN in {7,10,100}: random edge vectors with long runs of repeated edges and infinite '
+        '+-inf, NaN, -0.0, +0.0, +-1e300}; LEN in {7,10,15,16,31,33,64,100,127}: random edge vectors with long runs of repeated edges and infinite '
         'ends, and with_const_width grids. For each histogram: find(x) for every sample, then an add sequence with out-of-range '
         'samples interleaved. Model (10 lines): in range iff edge_0 <= x < edge_LEN (NaN never); bin = max{j: edge_j <= x}. '
         'Checked: find == model; add Ok/Err == model; no panic; bins == model counts (only the selected bin +1, failed adds change '
@@ -215,10 +215,10 @@ def run(tier, seed):
                 for e in vecs:
                     work.append(('%s%d' % (prefix, L), e, None))
             for i in range(int(nrand * frac)):
-                L = rng.choice([7, 10, 100])
+                L = rng.choice([7, 10, 15, 16, 31, 33, 64, 100, 127])
                 work.append(('%s%d' % (prefix, L), random_edges(rng, L), None))
             for i in range(int(nrand * frac / 3)):
-                L = rng.choice([3, 10, 100])
+                L = rng.choice([3, 10, 15, 31, 64, 100, 127])
                 a = rng.choice([-1, 1]) * 10.0 ** rng.uniform(-10, 10) * rng.choice([0, 1, 1])
                 b = a + 10.0 ** rng.uniform(-10, 10)
                 if not (a < b):
